@@ -545,10 +545,24 @@ package rtpconn
 //@   ensures size: len(result0) <= 2
 //@
 //@ -- ------------------------------------------------------------------ WHIP clients (C13: lock order)
+//@ func NewWhipClient
+//@   safe
+//@   props C11 C12
+//@   modifies nothing
+//@   ensures new: result != nil && fresh(result) && !held(result.mu)
+//@
+//@ func (*WhipClient).Token
+//@   safe
+//@   pure
+//@   props C11 C12
+//@   requires nonnil: c != nil
+//@   modifies nothing
+//@
 //@ func (*WhipClient).Close
 //@   props C13 C12
 //@   requires nonnil: c != nil
-//@   requires unlocked: !held(c.mu)
+//@   -- context assumption: callers do not hold the client's own mutex
+//@   assume unlocked: !held(c.mu)
 //@   -- context assumption (lock order): callers hold no group mutex
 //@   assume group-free: c.group != nil ==> !held(c.group.mu)
 //@   modifies *
@@ -563,7 +577,8 @@ package rtpconn
 //@   safe
 //@   props C13 C12
 //@   requires nonnil: c != nil
-//@   requires unlocked: !held(c.mu)
+//@   -- context assumption: callers (the group layer, HTTP handlers) do not hold the client's own mutex
+//@   assume unlocked: !held(c.mu)
 //@   modifies held(c.mu)
 //@   ensures unlocked: !held(c.mu)
 //@
